@@ -237,3 +237,39 @@ def core_problem(rng, n_ring=2, n_types=None, tdep=False, gap='flow',
     feats['n_pos'] = npos
     P['setup']['calc_energy_balance'] = True
     return P, feats
+
+
+def add_pin_model(rng, P, tname, kind=None):
+    """Attach a FuelModel (metal fuel) or PinModel (user pin materials) to an
+    assembly type so that pin temperatures are computed."""
+    t = P['types'][tname]
+    kind = kind or choose(rng, ['fuel', 'pin'])
+    nz = int(rng.integers(1, 4))
+    annular = rng.random() < 0.3
+    r0 = float(rng.uniform(0.1, 0.3)) if annular else 0.0
+    rf = [r0] + [float(x) for x in np.sort(rng.uniform(r0 + 0.1, 0.95,
+                                                       nz - 1))]
+    P['materials'].setdefault('clad_const', {'thermal_conductivity': [22.0]})
+    if kind == 'fuel':
+        t['FuelModel'] = {
+            'gap_thickness': 0.0,
+            'clad_material': 'clad_const',
+            'r_frac': rf,
+            'pu_frac': [float(rng.uniform(0.0, 0.3))] * nz,
+            'zr_frac': [float(rng.uniform(0.05, 0.15))] * nz,
+            'porosity': [float(rng.uniform(0.0, 0.3))] * nz}
+    else:
+        names = []
+        for i in range(nz):
+            nm = 'pinmat%d' % i
+            P['materials'][nm] = {'thermal_conductivity':
+                                  [float(rng.uniform(3.0, 30.0))]}
+            names.append(nm)
+        t['PinModel'] = {'clad_material': 'clad_const', 'r_frac': rf,
+                         'pin_material': names}
+        if rng.random() < 0.4:
+            P['materials']['gap_he'] = {'thermal_conductivity': [0.3]}
+            t['PinModel']['gap_material'] = 'gap_he'
+            t['PinModel']['gap_thickness'] = float(
+                rng.uniform(0.01, 0.05) * t['pin_diameter'])
+    return kind
